@@ -265,7 +265,40 @@ func (c *Ctx) configFuncsAppliedLocally(typeName string) (bool, string) {
 	if n == 0 {
 		return false, "no application site of " + typeName + " found"
 	}
-	return true, fmt.Sprintf("%d application site(s) of %s, each on the address of a local struct value", n, typeName)
+	// ... and nothing else writes a field of that struct type: every assignment to one of its fields goes through a
+	// local value or a *parameter* of the struct type (the option closures, the merge loop, constructors), never
+	// through a longer path such as w.Configs.x (the copy the worker keeps is read by every submitter)
+	structName := map[string]string{"ConfigFunc": "configs", "JobConfigFunc": "jobConfigs"}[typeName]
+	for _, f := range c.P.pkgFuncs(modPath) {
+		if f.Body == nil {
+			continue
+		}
+		info := f.Info()
+		bad := ""
+		ast.Inspect(f.Body, func(x ast.Node) bool {
+			var lhs []ast.Expr
+			switch st := x.(type) {
+			case *ast.AssignStmt:
+				lhs = st.Lhs
+			case *ast.IncDecStmt:
+				lhs = []ast.Expr{st.X}
+			}
+			for _, l := range lhs {
+				sel, ok := ast.Unparen(l).(*ast.SelectorExpr)
+				if !ok || !strings.HasPrefix(selField(info, sel), modPath+"."+structName+".") {
+					continue
+				}
+				if _, direct := ast.Unparen(sel.X).(*ast.Ident); !direct {
+					bad = c.P.pos(l)
+				}
+			}
+			return true
+		})
+		if bad != "" {
+			return false, "a field of " + structName + " is assigned through a longer path than a local or parameter (the copy kept by a published object) in " + f.Short() + " at " + bad + ": submitters copy that struct concurrently"
+		}
+	}
+	return true, fmt.Sprintf("%d application site(s) of %s, each on the address of a local struct value; fields of %s are only assigned through locals/parameters", n, typeName, structName)
 }
 
 // writersOf: functions that assign the field (non-private accesses).
